@@ -32,7 +32,7 @@ BIG = {
     "rbf": [(400, 0.01), (1500, 0.05)],
     "hh": [(100, 1000, 5), (20, 64, 4)],            # (number of hitters, width, depth)
     "st": [(20, 1000, 5), (5, 50, 3)],              # (threshold, width, depth)
-    "bits": [32771, 65541, 524309],                # Bitarray sizes just past 4 KiB, 8 KiB, 64 KiB of storage
+    "bits": [32771, 8192, 65536, 524309, 8191, 32768, 524288],     # Bitarray sizes at and just past 1 KiB, 4 KiB, 8 KiB, 64 KiB of storage
     "cko": [(20000, 4, 500, True), (500, 4, 500, False), (1000, 3, 300, True), (1500, 2, 300, False)],   # > 65536 slots; nearly full with max_swaps > 128; odd bucket size
     "ccko": [(1024, 4, 500, True), (40000, 4, 500, False), (500, 4, 500, False), (1000, 3, 300, True)],   # >= 1024 buckets with automatic expansion; > 131072 bins
     "qf": [(8, True), (7, False), (8, False), (7, False), (8, False), (7, False), (9, False), (9, True)],   # dense, nearly full tables: long wrapping clusters
